@@ -161,6 +161,13 @@ def _setup(ctx, state):
     state["tf"] = InverseRTransform(tf)
     state["center"] = c
     state["pts0"] = c + np.random.RandomState(g["pseed"]).uniform(-2.0, 2.0, size=(12, 3))  # oracle's own copy
+    # two of the evaluation points are special: very close to the centre, and far outside the charge
+    rr = np.random.RandomState(g["pseed"] + 7)
+    u1, u2 = rr.normal(size=3), rr.normal(size=3)
+    # (without the extra node at r = 0 the solution is not defined below the first radial node: no near-centre point then)
+    if (g.get("opts") or {}).get("include_origin") is not False:
+        state["pts0"][0] = c + 1e-4 * u1 / np.linalg.norm(u1)
+    state["pts0"][1] = c + rr.uniform(25.0, 60.0) * u2 / np.linalg.norm(u2)
     state["pts"] = state["pts0"].copy()  # the caller's evaluation points: ONE array handed to every returned potential
     state["pts_b0"] = c + np.random.RandomState(g["pseed"] + 1).uniform(-2.0, 2.0, size=(12, 3))
     state["pts_b"] = state["pts_b0"].copy()
@@ -286,7 +293,10 @@ def _op_ivp(ctx, op, state):
         ctx.violate("ivp-raise", "ivp", type(oc[1]).__name__, f"solve_poisson_ivp raised {oc[1]!r} on the shared grid / options")
         return
     ex = _potential(spec, state["pts0"], c)
-    acc = float(np.max(np.abs(oc[1] - ex))) / max(1.0, float(np.max(np.abs(ex))))
+    # the IVP solution covers r_interval only: points closer to the centre than its lower end are extrapolated
+    r_lo = float((ctx.spec["grid"].get("r_interval") or (500.0, 1e-3))[1])
+    inside = np.linalg.norm(state["pts0"] - c, axis=1) > 10 * r_lo
+    acc = float(np.max(np.abs(oc[1] - ex)[inside])) / max(1.0, float(np.max(np.abs(ex))))
     if not np.isfinite(acc) or acc > ACC_BOUND:
         ctx.violate("accuracy", "ivp", which, f"IVP potential off by {acc:.3g}")
     ctx.probes.hit("ivp-on-shared-grid")
